@@ -1,5 +1,8 @@
 ------------------------- MODULE ServerChoice_Trace -------------------------
-(* Judges what the live proxy did for one player per run.  Lines:
+(* Judges what the live proxy did for one player per run.  A history may have two runs on the same
+   proxy: an earlier player that joined while some listed servers were unregistered ("role":"prelude",
+   its reg is the registration in force then), and, after those servers were registered again, the
+   history's own player ("role":"main", "away_before" = those servers).  Lines:
      {"ev":"reset","forced":{"has":bool,"key":[code points],"list":[names]},"try":[names],
       "vh":[code points of the client's handshake address],"reg":[registered names],"port":n,
       "renamed":[names]}   servers of reg that were re-registered through the API under an upper-case
